@@ -370,7 +370,50 @@ def run(ctx):
     from .c13 import cell_cleaning_rule
     rules.append(cell_cleaning_rule(ctx, "C11", "C11.R7"))
     rules.append(_create_survey_history_rule(ctx))
+    rules.append(_settings_row_rule(ctx))
     return rules
+
+
+def _settings_row_rule(ctx):
+    """The settings are the FIRST row under the settings headers: the settings block of workbook_to_json, evaluated as a
+    block on sheets with one row, with further rows below (an old release row, a notes row), and with columns the first
+    row leaves blank - what a lower row holds is never a setting of this form."""
+    r = Rule("C11", "C11.R9", "the settings are the first settings row, nothing from the rows below it", floor=4,
+             necessary="a value taken from a lower row puts a setting into the form that its settings row does not have")
+    w2j = ctx.func("pyxform.xls2json:workbook_to_json", "C11.R9")
+    blk = next((st for st in w2j.node.body if isinstance(st, ast.If) and norm(st.test) in ("workbook_dict.settings", "settings_sheet")
+                and any(isinstance(c, ast.Call) and call_name(c) == "dealias_and_group_headers" for c in ast.walk(st))), None)
+    if blk is None:
+        r.note("the settings block of workbook_to_json was not recognised (if workbook_dict.settings: ... dealias_and_group_headers)")
+        r.floor = 0
+        return r
+    SHEETS = {
+        "one row": ([{"form_title": "T", "form_id": "I", "version": "1"}], {"title": "T", "id_string": "I", "version": "1"}),
+        "an older release row below": ([{"form_title": "T", "form_id": "I", "version": "2"}, {"form_title": "Old", "form_id": "I0", "version": "1"}], {"title": "T", "id_string": "I", "version": "2"}),
+        "lower row fills columns the first row leaves blank": ([{"form_title": "T", "form_id": "I"}, {"version": "9", "style": "pages", "instance_name": "concat('x')", "submission_url": "https://example.org"}], {"title": "T", "id_string": "I"}),
+        "notes row below": ([{"form_title": "T"}, {"form_title": "remember to bump", "public_key": "KEY", "auto_send": "true"}], {"title": "T"}),
+    }
+    for desc, (rows, want) in SHEETS.items():
+        data = [dict(x) for x in rows]
+        hdr = {}
+        for x in data:
+            for k_ in x:
+                hdr.setdefault(k_, None)
+        wd = Obj(None, {"settings": data, "settings_header": [hdr]}, name="workbook_dict")
+        env = {"workbook_dict": wd, "warnings": [], "sheet_names": ["survey", "settings"], "settings": {}}
+        it = ctx.interp("C11.R9", hooks={"new:DealiasAndGroupHeadersResult": lambda i, a, k, n: Obj(None, dict(k) if k else {"headers": a[0], "data": a[1]}, name="result")})
+        it.reset([])
+        try:
+            it.exec_block([blk], env, w2j.module)
+            got = {k: v for k, v in (env.get("settings") or {}).items() if not str(k).startswith("__")}
+        except AnalysisError as e:
+            r.note(f"the settings block reads state this evaluation does not provide ({e}); block obligations skipped")
+            r.floor = 0
+            return r
+        except Raised as e:
+            got = f"raises {e.exc_name}{e.exc_args}"
+        r.check(got == want, f"settings block[{desc}]", f"settings == {want}", w2j.loc(blk), why_fail=repr(got)[:220])
+    return r
 
 
 def _create_survey_history_rule(ctx):
